@@ -883,19 +883,6 @@ inline void gen_methods(Choice& ch, Spec& s, const GenOpts& o, int size) {
     }
 }
 
-inline Spec gen_spec(Choice& ch, const GenOpts& o, int size) {
-    Spec s;
-    gen_graph(ch, s, o, size);
-    gen_ids(ch, s, o);
-    if (o.canonical_presentation) {
-        canonical_presentation(s);
-    } else {
-        random_presentation(ch, s);
-    }
-    gen_methods(ch, s, o, size);
-    return s;
-}
-
 // Random permutation drawn with Lehmer-coded picks (0 = identity).
 template<class T>
 void permute(Choice& ch, std::vector<T>& v) {
@@ -907,6 +894,41 @@ void permute(Choice& ch, std::vector<T>& v) {
             v.insert(v.begin() + i, tmp);
         }
     }
+}
+
+inline Spec gen_spec(Choice& ch, const GenOpts& o, int size) {
+    Spec s;
+    gen_graph(ch, s, o, size);
+    gen_ids(ch, s, o);
+    if (o.canonical_presentation) {
+        canonical_presentation(s);
+        if (ch.chance(1, 2)) {
+            // use_classes<...> keeps the order in which the user listed the
+            // classes, which need not put bases first: the records, and the
+            // entries of every record, follow one arbitrary listing order
+            std::vector<int> order(s.n), pos(s.n);
+            for (int c = 0; c < s.n; ++c) {
+                order[c] = c;
+            }
+            permute(ch, order);
+            for (int i = 0; i < s.n; ++i) {
+                pos[order[i]] = i;
+            }
+            for (auto& r : s.recs) {
+                std::sort(r.bases.begin(), r.bases.end(), [&](int a, int b) {
+                    return pos[a] < pos[b];
+                });
+            }
+            std::sort(s.recs.begin(), s.recs.end(),
+                      [&](const Rec& a, const Rec& b) {
+                          return pos[a.cls] < pos[b.cls];
+                      });
+        }
+    } else {
+        random_presentation(ch, s);
+    }
+    gen_methods(ch, s, o, size);
+    return s;
 }
 
 // ---------------------------------------------------------------------------
